@@ -59,4 +59,19 @@ PROPS = {
         "assumptions": ["table satisfies TInv (proved for every reachable table in C08)", "ids are 20 bytes"],
         "level_note": "walk, exactly-once enumeration, closer-nodes-first and the per-family reply list are proved for every table satisfying the invariant; the family filter/take(8) glue of the handler is additionally exercised by the handler engine (C05)",
     },
+    "C13": {
+        "engines": [{"name": "codec", "quick": 40, "thorough": 1500, "oracle_tag": "C13"}],
+        "constants": ["INFO_HASH_LEN", "SOCKET_ADDR_V4_LEN", "SOCKET_ADDR_V6_LEN", "BENCODE_MAX_DEPTH"],
+        "trusted": COMMON_TRUST + ["serde / serde_bytes / torrust-serde-bencode behaviour is part of the hand-written decoder model (validated differentially, incl. a malformed stream)",
+                                   "two syntactic classes are declared unmodelled and excluded from the verdict comparison: a list where a struct is expected; y/q given a dictionary"],
+        "assumptions": ["byte strings shorter than 2^64 (datagrams are <= 64 KiB)"],
+        "level_note": "byte-level round trip (any trailing bytes), encoder totality, sorted keys, literal templates and the rejections are proved for the whole message space; invariance under key reordering/unknown keys is decided by the tie only so far (partial)",
+    },
+    "C14": {
+        "engines": [{"name": "codec", "quick": 40, "thorough": 1500, "oracle_tag": "C14", "op_filter": ["dec"]}],
+        "constants": ["BENCODE_MAX_DEPTH", "RECV_BUFFER_LEN"],
+        "trusted": COMMON_TRUST + ["Rust-level panic/abort/stack-overflow freedom is runtime behaviour observed by the supervised decoder child (2 MiB stack, RLIMIT_AS 3 GiB, allocation counter); no theorem covers it"],
+        "assumptions": [],
+        "level_note": "PARTIAL: proved — decoder model total, every materialised string <= input length, pre-scan rejects over-long strings / nesting > 32 and accepts all well-formed values within the limit; not provable in Lean — that the Rust code does not panic/abort/overflow (tie only); the 'node keeps serving' clause is decided by the node engine once built",
+    },
 }
